@@ -49,6 +49,9 @@ pub enum Call {
     /// Bump a file's change-time (chmod).
     Touch(FileRef),
     SleepMs(u8),
+    /// Replace a registered trusted path on disk by a symbolic link to another file
+    /// (the path "moves to a different device", which the module anticipates).
+    RepointTrusted { which: u8, to: FileRef },
 }
 
 #[derive(Clone, Debug, PartialEq, Eq, Hash, Serialize, Deserialize)]
@@ -66,6 +69,7 @@ pub struct Verdict {
     pub base_moved: u32,
     pub device_b_available: bool,
     pub calls_run: u32,
+    pub repointed: bool,
 }
 
 const STALE_FILES: [&str; 4] = ["/verif/harness/Cargo.toml", "/verif/properties.jsonl", "/verif/harness/src/main.rs", "/verif/check"];
@@ -136,6 +140,7 @@ fn execute(case: &Case) -> Verdict {
     };
     let mut saw_untrusted = false;
     let mut observed_fresh_trusted = false;
+    let mut repointed = false;
 
     let fail = |v: &mut Verdict, sig: &str, msg: String| {
         v.ok = false;
@@ -245,6 +250,19 @@ fn execute(case: &Case) -> Verdict {
                     must_not_move = true;
                     std::thread::sleep(std::time::Duration::from_millis((ms % 6) as u64));
                 }
+                Call::RepointTrusted { which, to } => {
+                    must_not_move = true;
+                    if !env.trusted_paths.is_empty() {
+                        let path = env.trusted_paths[(which as usize * env.trusted_paths.len()) >> 8].clone();
+                        if let (Some(target), Some(_)) = (env.path(to), env.open(to)) {
+                            if target != path {
+                                let _ = std::fs::remove_file(&path);
+                                let _ = std::os::unix::fs::symlink(&target, &path);
+                                repointed = true;
+                            }
+                        }
+                    }
+                }
             }
             Ok(())
         });
@@ -292,7 +310,13 @@ fn execute(case: &Case) -> Verdict {
                 fail(&mut v, "moved-on-untrusted-evidence", format!("call #{i} {call:?} moved the base time from {before} to {after} although it had no trusted file to look at"));
                 break;
             }
-            let ctimes: Vec<u64> = allowed.iter().filter_map(|p| std::fs::metadata(p).ok()).map(|m| ctime_ms(&m)).collect();
+            // Only files that (now) live on a trusted device count as evidence.
+            let ctimes: Vec<u64> = allowed
+                .iter()
+                .filter_map(|p| std::fs::metadata(p).ok())
+                .filter(|m| env.trusted_devs.contains(&m.dev()))
+                .map(|m| ctime_ms(&m))
+                .collect();
             if !ctimes.contains(&after) {
                 fail(
                     &mut v,
@@ -303,6 +327,7 @@ fn execute(case: &Case) -> Verdict {
             }
         }
     }
+    v.repointed = repointed;
     let _ = std::fs::remove_dir_all(&env.dir_a);
     if let Some(b) = &env.dir_b {
         let _ = std::fs::remove_dir_all(b);
@@ -346,6 +371,7 @@ pub fn check_case(case: &Case) -> CaseResult {
         .label_if(verdict.stale_after_fresh, "stale_trusted_file_after_fresh_one")
         .label_if(verdict.base_moved > 0, "base_time_moved")
         .label_if(verdict.base_moved > 1, "base_time_moved_more_than_once")
+        .label_if(verdict.repointed, "trusted_path_repointed_to_another_file")
         .label_if(!verdict.device_b_available, "no_second_writable_device")
         .label_if((verdict.calls_run as usize) < case.calls.len(), "stopped_early_on_io_error"))
 }
@@ -371,6 +397,7 @@ fn call() -> impl Strategy<Value = Call> {
         1 => Just(Call::GetUnlocked),
         2 => file_ref().prop_map(Call::Touch),
         2 => (1u8..6).prop_map(Call::SleepMs),
+        2 => (any::<u8>(), file_ref()).prop_map(|(which, to)| Call::RepointTrusted { which, to }),
     ]
 }
 
@@ -390,7 +417,7 @@ fn replay(_ctx: &Ctx, _group: &str, case: &Value) -> CaseResult {
 pub fn def() -> PropDef {
     PropDef {
         id: "C19",
-        rule: "Each case runs in a fresh child process (the module state is process-global). A case is a sequence of 1..20 calls: add_trusted_path on the device holding /verif (A) or on /dev/shm (B), observe_file_time / maybe_observe_file_time on files created by the case on A or B, on files that existed long before (old change-times) on A, on /proc/self/stat and /dev/null, scan_base_time, get_base_time with 'now' at the epoch / far in the future / real, get_base_time_unlocked, chmod of a fresh file (bumps its change-time), short sleeps. With b = get_base_time_unlocked before and after every call: b never decreases; if it changed, a device is trusted, the call had trusted evidence to look at, and the new value is the change-time (ms, read back with stat) of a file the call could legitimately have observed (its argument if its device is trusted, the path being registered, or a registered path for scan / refresh); observe_file_time on an untrusted device reports nothing and on a trusted one reports exactly that file's change-time; every (base, voucher) pair returned by any call passes VouchedTime::check. The oracle never predicts whether the refresh policy fires. Non-trivial: an observation on an untrusted device followed later by one on a trusted device, or an old trusted file observed after a fresh one. Distinct: hash of the serialised case.",
+        rule: "Each case runs in a fresh child process (the module state is process-global). A case is a sequence of 1..20 calls: add_trusted_path on the device holding /verif (A) or on /dev/shm (B), observe_file_time / maybe_observe_file_time on files created by the case on A or B, on files that existed long before (old change-times) on A, on /proc/self/stat and /dev/null, scan_base_time, get_base_time with 'now' at the epoch / far in the future / real, get_base_time_unlocked, chmod of a fresh file (bumps its change-time), short sleeps, and replacing a registered trusted path on disk by a symbolic link to another file (on the same, the other writable, or a read-only device). With b = get_base_time_unlocked before and after every call: b never decreases; if it changed, a device is trusted, the call had trusted evidence to look at, and the new value is the change-time (ms, read back with stat) of a file the call could legitimately have observed (its argument if its device is trusted, the path being registered, or a registered path for scan / refresh - in every case only if the file it now resolves to lives on a trusted device); observe_file_time on an untrusted device reports nothing and on a trusted one reports exactly that file's change-time; every (base, voucher) pair returned by any call passes VouchedTime::check. The oracle never predicts whether the refresh policy fires. Non-trivial: an observation on an untrusted device followed later by one on a trusted device, or an old trusted file observed after a fresh one. Distinct: hash of the serialised case.",
         assumptions: &[
             "only two writable devices exist in the sandbox (the ext4 device holding /verif and /dev/shm); real NFS semantics are out of reach",
             "a call that fails with an I/O error ends the case without a verdict for the remaining calls",
